@@ -95,6 +95,16 @@ type freshXorHdr struct{}
 func (freshXorHdr) Compressor() mcap.ResettableWriteCloser { return &xorHdrWriter{} }
 func (freshXorHdr) Compression() mcap.CompressionFormat    { return mcap.CompressionFormat(wl.CustomCompressionHdr) }
 
+type ownZstd struct{ d *zstd.Decoder }
+
+func (o ownZstd) Read(p []byte) (int, error) { return o.d.Read(p) }
+func (o ownZstd) Reset(r io.Reader) error    { return o.d.Reset(r) }
+
+type ownLZ4 struct{ r *lz4.Reader }
+
+func (o ownLZ4) Read(p []byte) (int, error) { return o.r.Read(p) }
+func (o ownLZ4) Reset(r io.Reader) error    { o.r.Reset(r); return nil }
+
 // freshXor is a CustomCompressor written as a factory: every Compressor() call returns a new instance.
 type freshXor struct{}
 
@@ -398,6 +408,11 @@ func varySource(r io.Reader, needSeek bool) (io.Reader, func()) {
 		return plainReader{br}, func() {}
 	case k == 4 && !needSeek:
 		return bufio.NewReaderSize(br, 16), func() {}
+	case k == 7 && !needSeek:
+		// a *bytes.Buffer: no Seek, but Next(n), Len, WriteTo, ReadFrom ...
+		b := make([]byte, br.Len())
+		_, _ = br.ReadAt(b, 0)
+		return bytes.NewBuffer(b), func() {}
 	case k == 6 && !needSeek:
 		// the read end of a pipe (what os.Stdin is under `cat file | tool`): an *os.File, so it has a Seek
 		// method, but seeking fails
@@ -500,6 +515,8 @@ type LexParams struct {
 	// 1 one fixed 24-byte buffer every time; 2 the documented idiom: keep the largest slice returned
 	// so far and hand it back. Tokens are parsed (deep-copied) before the next call in every mode.
 	BufMode int
+	// OwnCodecs: the lexer is given caller-supplied decompressors for "zstd" and "lz4" (LexerOptions.Decompressors)
+	OwnCodecs bool
 	// AttConsume: how the attachment callback treats the data: 0 reads all of it, then ComputedCRC, then ParsedCRC;
 	// 1 reads nothing and returns; 2 reads half and returns; 3 reads all and asks for no CRC; 4 reads all and asks
 	// ParsedCRC before ComputedCRC, each twice. The lexer has to step over whatever was left.
@@ -571,6 +588,16 @@ func LexAll(r io.Reader, p LexParams, keepRaw bool) (res LexResult) {
 		MaxDecompressedChunkSize: p.MaxDecompressedChunkSize}
 	if p.Custom {
 		opts.Decompressors = Decompressors()
+	}
+	if p.OwnCodecs {
+		// the caller brings its own decoders for the standard formats (a tuned zstd decoder, an lz4 reader)
+		if opts.Decompressors == nil {
+			opts.Decompressors = map[mcap.CompressionFormat]mcap.ResettableReader{}
+		}
+		if zd, err := zstd.NewReader(nil, zstd.WithDecoderConcurrency(1)); err == nil {
+			opts.Decompressors[mcap.CompressionZSTD] = ownZstd{zd}
+		}
+		opts.Decompressors[mcap.CompressionLZ4] = ownLZ4{lz4.NewReader(nil)}
 	}
 	if !p.NoAttCallback {
 		opts.AttachmentCallback = func(ar *mcap.AttachmentReader) error {
